@@ -185,7 +185,18 @@ def encode_table(P):
         op = s["rv"]["ops"][s["rv"]["fields"].index("ttl")]
         _collect_or_chain(P, b, T, cfg, op, bb, idx, "opt", tab)
         cl = norm(f["class"])
-        tab["bufsize"] = {"class_from": "bufsize" if any(y[0] == "field" and y[2] == "bufsize" for y in subterms(cl)) else show(cl)[:40]}
+        # the field itself (through the newtype and borrows), not something computed from it: min(bufsize, 4096) is not what was decoded
+        cx = norm(cl)
+        for _ in range(6):
+            if cx[0] in ("ref", "deref"):
+                cx = norm(cx[1])
+            elif cx[0] == "agg" and len(cx[3]) == 1:
+                cx = norm(cx[3][0][1])
+            elif cx[0] == "cast":
+                cx = norm(cx[3])
+            else:
+                break
+        tab["bufsize"] = {"class_from": "bufsize" if (cx[0] == "field" and cx[2] == "bufsize") else show(cl)[:40]}
     return tab, (b, b.span)
 
 
